@@ -207,7 +207,16 @@ fn layer_prop(c: &LayerCase, st: &mut Stats) -> Result<(), String> {
 
     // MDS: optimised (frequency-domain) layer, generic row routine, extension-field variants.
     let want_mds = pref::mds_layer(s);
-    cmp("mds_layer", &F::mds_layer(&inp), &want_mds)?;
+    let got_mds = F::mds_layer(&inp);
+    if got_mds.iter().any(|x| x.0 >= P) {
+        st.label("layer:mds_output_noncanonical_repr");
+    }
+    let a0: u128 = (0..12).map(|i| pref::MDS_CIRC[i] as u128 * s[i] as u128).sum();
+    let a0_lazy = (a0 as u64 as u128) + (a0 >> 64) * EPS as u128;
+    if a0_lazy < 1 << 64 && a0_lazy >= P as u128 && s[0] < 1 << 61 && 8 * s[0] >= P {
+        st.label("layer:mds_row0_and_diag_term_both_near_2^64");
+    }
+    cmp("mds_layer", &got_mds, &want_mds)?;
     for r in 0..12 {
         let got = pref::red(F::mds_row_shf(r, s));
         if got != want_mds[r] {
